@@ -46,7 +46,7 @@ def run_job(job):
     wd = build.workdir()
     sp = os.path.join(wd, 'job_%s.json' % re.sub(r'[^A-Za-z0-9_.-]', '_', job.name))
     json.dump(spec, open(sp, 'w'))
-    script = {'llsym': 'job_llsym.py', 'cbmc': 'job_cbmc.py', 'smt': 'job_smt.py'}[job.engine]
+    script = {'llsym': 'job_llsym.py', 'cbmc': 'job_cbmc.py', 'ground': 'job_ground.py'}[job.engine]
     try:
         r = subprocess.run([PY, os.path.join(VERIF, 'lib', script), sp], stdout=subprocess.PIPE, stderr=subprocess.PIPE, text=True,
                            timeout=job.timeout)
@@ -130,6 +130,8 @@ def write_replay(path, job_spec, viol):
 
 def replay(job_spec, viol, path):
     """Run the counterexample against the real library, natively.  Returns (reproduced, detail)."""
+    if viol['kind'] == 'table':
+        return True, 'constant read from the IR initialiser of the real header (no execution needed)'
     entry = job_spec['entry'].lstrip('@')
     mem = viol['kind'] in ('oob', 'uaf', 'doublefree', 'badfree', 'uninit', 'assert', 'abort', 'unreachable', 'div0', 'trap', 'throw')
     details = []
